@@ -97,5 +97,8 @@ GroupIsolation == \A k \in DOMAIN emitted : BatchGroup(emitted[k], offered)
 MaxSize(c)     == \A k \in DOMAIN emitted : BatchMax(emitted[k], c)
 Conservation   == phase = "stopped" => Conserved(WithStatus("before"), IdsOfSeq(emitted))
 AcceptedGroups == {offered[id].md : id \in WithStatus("before") \cup WithStatus("after")}
-CardinalityRefused(c) == CardinalityOK(AcceptedGroups, c)
+\* ... and never more than limit groups reach downstream either (a refusal that still batches the data
+\* would show up here and in NothingInvented)
+EmittedGroups  == {emitted[k].md : k \in DOMAIN emitted}
+CardinalityRefused(c) == CardinalityOK(AcceptedGroups, c) /\ CardinalityOK(EmittedGroups, c)
 =============================================================================
